@@ -142,3 +142,9 @@ def parameter_state_machine(vc):
                                              vc.eq(vc.attr(p, "width"), vc.attr(p, "upper") - vc.attr(p, "lower"))))
 
 from contracts.mcmc_native import limits_native  # noqa: registers the bounded layer
+
+
+# the finite-difference gradient of HamiltonianChain evaluates the posterior too: its contract (C07) carries the clause
+# "every evaluation point lies inside the bounds" and is checked under this property as well
+from contracts.c07_hamiltonian import finite_diff as _finite_diff
+contract("C04", "finite_diff", native=False, replay_with="limits_native")(_finite_diff)
